@@ -49,9 +49,10 @@ def run_single(engine, job, timeout=None):
 
 
 def write_replay(prop, engine, job, violation, seed):
-    os.makedirs(os.path.join(VERIF_DIR, "replays"), exist_ok=True)
+    rdir = os.environ.get("VERIF_REPLAY_DIR") or os.path.join(VERIF_DIR, "replays")
+    os.makedirs(rdir, exist_ok=True)
     name = "%s-%s-%s.json" % (prop, seed, W.digest([job["payload"], violation.get("invariant")])[:8])
-    path = os.path.join(VERIF_DIR, "replays", name)
+    path = os.path.join(rdir, name)
     with open(path, "w") as f:
         json.dump(
             {
@@ -189,8 +190,9 @@ def main(engine_mod, argv):
         "wall_s": round(wall, 2),
         "violations": len(new_violations),
     }
-    os.makedirs(os.path.join(VERIF_DIR, "evidence"), exist_ok=True)
-    with open(os.path.join(VERIF_DIR, "evidence", prop + ".json"), "w") as f:
+    evdir = os.environ.get("VERIF_EVIDENCE_DIR") or os.path.join(VERIF_DIR, "evidence")
+    os.makedirs(evdir, exist_ok=True)
+    with open(os.path.join(evdir, prop + ".json"), "w") as f:
         json.dump(evidence, f, indent=1, sort_keys=True, default=repr)
     for kid, (k, n) in sorted(known_hits.items()):
         print("KNOWN-FINDING: property=%s %s (%s; seen %d times in this run)" % (prop, k["what"], kid, n))
